@@ -398,7 +398,7 @@ def style_of(rows):
     names = {r["chromosome"] for r in rows}
     alt = any(not F.is_canonical(n) for n in names)
     pre = {n[:3].lower() == "chr" for n in names}
-    return ("chr" if pre == {True} else "plain" if pre == {False} else "mixed") + ("+contig" if alt else "") + ("/1chrom" if len(names) == 1 else "/multi")
+    return ("chr" if pre == {True} else "plain" if pre == {False} else "mixed") + ("+contig" if alt else "")
 
 
 def carried_key(r, cols):
@@ -454,14 +454,16 @@ def compare_read(ctx, where, res, want_rows, carried, sub, has_end=True):
     if fault:
         ctx.violation(
             "rows are sorted by natural chromosome order (1, 2, 10, X, Y, M, then other contigs), then start, then end",
-            f"read/{where}/order/{fault}/{style_of(want_rows)}",
+            f"read/order/{fault}/{style_of(want_rows)}",  # sorting is one shared step: the format is in `sub`, not in the key
             expected=coords(F.sorted_rows(want_rows)) if has_end else None,
             observed=oc,
             sub=sub,
         )
         return False
     if carried:
-        ccols = [c for c in carried]
+        # a leading '?' marks a column whose *name* is the package's own choice (Picard's %gc -> gc, SEG's
+        # num.mark -> probes): compared when present under that name, not demanded
+        ccols = [c.lstrip("?") for c in carried if not (c.startswith("?") and c[1:] not in cols)]
         missing = [c for c in ccols if c not in cols]
         if missing:
             ctx.violation("the columns the format carries are read", f"read/{where}/missing-column/{missing[0]}", observed=cols, sub=sub)
@@ -627,7 +629,7 @@ def run_read(case, ctx):
     explicit("tab", p, "tab", ["gene", "depth", "log2", "probes"], reader=cnvlib.read)
     # Picard per-target coverage
     p = put("m.hs.txt", F.write_picard_hs(rows))
-    explicit("picardhs", p, "picardhs", ["gene", "gc", "depth", "ratio"])
+    explicit("picardhs", p, "picardhs", ["gene", "?gc", "?depth", "?ratio"])
     # SEG
     p = put("m1.seg", F.write_seg([(SEG_IDS[0], rows)], probes=False))
     explicit("seg-1-sample", p, "seg", ["log2"])
@@ -639,10 +641,10 @@ def run_read(case, ctx):
         rot = case["rows"][j % len(rows) :] + case["rows"][: j % len(rows)]
         samples.append((SEG_IDS[j], build(rot, case.get("voff", 0) + j + 1, case.get("ioff", 0) + j)))
     p = put("mk.seg", F.write_seg(samples, probes=True))
-    explicit("seg-k-samples", p, "seg", ["log2", "probes"], want=samples[0][1])
+    explicit("seg-k-samples", p, "seg", ["log2", "?probes"], want=samples[0][1])
     for j, (sid, srows) in enumerate(samples):
-        explicit("seg-k-samples", p, "seg", ["log2", "probes"], want=srows, sample_id=sid)
-        explicit("seg-k-samples", p, "seg", ["log2", "probes"], want=srows, sample_id=j)
+        explicit("seg-k-samples", p, "seg", ["log2", "?probes"], want=srows, sample_id=sid)
+        explicit("seg-k-samples", p, "seg", ["log2", "?probes"], want=srows, sample_id=j)
     ctx.stratum("read:seg-samples=%d" % k)
     # VCF
     p = put("m.sites.vcf", F.write_vcf(rows, "sv", sample=False))
@@ -682,7 +684,7 @@ def compare_back(ctx, fmt, res, want_rows, carried, sub, kind):
     ctx.outcome(("back", fmt, tuple(oc)))
     if oc != ec:
         if sorted(oc) == sorted(ec):
-            key = f"roundtrip/{fmt}/row-order/{style_of(want_rows)}"
+            key = f"roundtrip/row-order/{style_of(want_rows)}"
         else:
             key = f"roundtrip/{fmt}/coords/{coord_delta(ec, oc)}"
         ctx.violation("writing a table and reading it back returns identical coordinates", key, expected=ec, observed=oc, sub=sub)
